@@ -18,6 +18,7 @@ var table = map[string]func(*fw.Ctx){
 	"C05": checks.C05,
 	"C06": checks.C06,
 	"C07": checks.C07,
+	"C11": checks.C11,
 	"C12": checks.C12,
 	"C13": checks.C13,
 	"C16": checks.C16,
